@@ -43,8 +43,12 @@ MANIFEST = {
             "prefix, and the error propagation bound |xhat_i - x_i| <= tol (1+L/m)^i. "
             "PARTIAL: float rounding/resolution ('down to floating-point resolution', the tol<ulp exit through max_iter) is not "
             "modelled -- all theorems are about exact real arithmetic; it is covered only by the executed oracle. "
-            "The model is tied to /repo on every run by exact equality (root, adapt iterations, bisection iterations) on dyadic cases "
-            "for which every float64 operation of the search is exact.",
+            "The model is tied to /repo on every run by exact equality (root, adapt iterations, bisection iterations; adapted bracket; "
+            "every coordinate of the autoregressive inverse, with and without a condition) on dyadic cases for which every float64 "
+            "operation of the search is exact; the theorem C10_rational_run_is_real_run identifies that rational run with the real-number "
+            "run the theorems speak about. The property's own statement is also evaluated on the implementation alone: dyadic and "
+            "non-dyadic shape families with the root in closed form, triangular maps with the preimage known, and BNAF round trips "
+            "(per-coordinate bracket test).",
     "note": "Trusted: Coq kernel; extraction (ExtrOcamlBasic); ocaml/drv_bisect.ml (dyadic parser, binary64-representability "
             "counter wrapped around the extracted Q record); harness (case generator, the jnp transcription of the function family, "
             "comparators). Assumes finite non-NaN function values; x64 mode.",
@@ -396,6 +400,10 @@ def _worker_main():
                 cond = None if q.get("cond") is None else jnp.asarray([float.fromhex(v) for v in q["cond"]])
                 res = inv(bij, y, cond) if q.get("eager") else auto_jit(inv, bij, y, cond)
                 r = {"x": [float(v).hex() for v in np.asarray(res)]}
+            elif t == "noroot":
+                # a bounded increasing function below zero: no root.  The model never terminates (C10_adapt_needs_root).
+                res = _adapt_interval_to_include_root(lambda x: jnp.tanh(x) - 2.0, lower=jnp.asarray(-10.0), upper=jnp.asarray(10.0))
+                r = {"returned": [float(res[0]), float(res[1]), int(res[2])]}
             elif t == "precond":
                 # the hypotheses lo < up, tol > 0, max_iter >= 0 of the theorems are enforced by the code
                 try:
@@ -1080,6 +1088,24 @@ def unit_precond(ctx, guard):
                           broken="hypotheses lo < up / 0 < tol of the C10 theorems vs argument checks of the code")
 
 
+def unit_noroot(ctx):
+    """documented behaviour, not part of the property (it presupposes a root): recorded, never a violation"""
+    u = ctx.unit("no-root-divergence", "_adapt_interval_to_include_root on tanh(x) - 2 (increasing, bounded, NO root) under a 8 s guard: the model "
+                                       "never terminates for any fuel (theorem C10_adapt_needs_root); observation recorded in the notes only")
+    g2 = Guard(timeout=8, first_timeout=240)
+    try:
+        ans = g2._ask({"t": "noroot"}, 8)
+    finally:
+        g2.close()
+    u.count({"unit": "noroot"}, nontrivial=True, tag="hang" if "hang" in ans else "returned")
+    if "hang" in ans:
+        ctx.notes.append("no-root-divergence: as the model predicts (adapt = None for every fuel), the adaptation of the code did not return within 8 s "
+                         "on tanh(x) - 2 and was killed by PID; the property presupposes a root")
+    else:
+        ctx.notes.append(f"no-root-divergence: the implementation answered {ans} on a function without a root (the model never terminates there); "
+                         "not covered by the property, recorded only")
+
+
 # ====================================================================================== entry points
 def run(ctx):
     guard = Guard(timeout=45 if ctx.quick else 90, first_timeout=240)
@@ -1098,6 +1124,7 @@ def _run(ctx, guard):
     unit_bnaf(ctx, guard)
     unit_precond(ctx, guard)
     guard.close()
+    unit_noroot(ctx)
     if guard.crashes:
         ctx.violation(sig="harness:worker-crash", what="the implementation worker process died: " + guard.crashes[0][-400:],
                       case={"stderr": guard.crashes[0]}, found_input=False, broken="harness worker / import of flowjax")
